@@ -135,16 +135,21 @@ CLAIMS = {
         "members, reduced-zone and Euler-region representatives) is fed to angle_with, the angle to a third orientation, "
         "in_fundamental_sector and the IPF colour key for all 38 groups."),
  "C10": dict(category="proof", design_ref="DESIGN.md section 5 C10",
-   technique="Lean 4: orbit-stabiliser theorem and orbit/key lemmas for any action of a finite matrix group, instantiated on the regenerated point-group tables; list-level layout theorems for symmetrise; exact differential run on integer indices",
+   technique="Lean 4: orbit-stabiliser theorem and orbit/key lemmas for any action of a finite matrix group, instantiated on the regenerated point-group tables; list-level layout theorems for symmetrise; recovery theorems for the executable model of Miller.round; minimum/invariance theorems for the symmetry-aware angle; exact differential run on integer indices",
    text="Proved for any action of a finite group list (C03) on any vector type: symmetrise is the list of images under all "
         "operations; the multiplicity (number of distinct images) times the stabiliser order equals the group order, hence "
         "divides it (orbit-stabiliser, via fibre counting); with unique=True the vectors are the distinct images grouped in "
         "input order with one multiplicity per input and one index per returned vector; unique(use_symmetry=True) keeps "
         "exactly one vector per orbit; two vectors have the same key (set of images) iff one is an image of the other. "
-        "Instantiated for every regenerated point-group table acting on integer indices. The symmetry-aware angle is the "
-        "minimum over the orbit by definition of the model; on the implementation it is compared with an independent brute "
-        "force, as are symmetrise (all flags, shapes, hkl/uvw/xyz), unique and the metadata. The 1e-10 rounding of "
-        "near-duplicates and Miller.round's float search are compared, not proved."),
+        "Instantiated for every regenerated point-group table acting on integer indices. Miller.round (_round_indices, "
+        "executable model MillerRound.lean run against the code on every run): every multiple of a coprime triplet whose "
+        "largest index is at most min(max_index, 51) comes back as that triplet (also Miller-Bravais quartets), with a proved "
+        "miss at index 52 caused by the 1e-7 error grid (open finding) and no bound needed without the grid. The "
+        "symmetry-aware angle (model angleWithSym, run on the live operations): it is the minimum over the images, invariant "
+        "under images of either argument, the plain angle for the trivial group; with several other vectors entry i belongs "
+        "to the pair at position i (repaired in /repo, 820316b). On the implementation symmetrise (all flags, shapes, "
+        "hkl/uvw/xyz), unique, the angle (broadcasting shapes) and the metadata are compared with an independent brute "
+        "force. The 1e-10 rounding of near-duplicates and floating-point rounding are compared, not proved."),
  "C18": dict(category="proof", design_ref="DESIGN.md section 5 C18",
    technique="Lean 4: chunked = whole for every chunk size (lists, induction), einsum tables and built-in kernels = model product (AST-translated, ring), backends agree on unit quaternions; differential run across lazy x chunk x backend x dtype x whole/element-wise",
    text="Proved: for every chunk size, chunked evaluation of element-wise maps and of outer products equals whole evaluation "
